@@ -2,11 +2,12 @@ import Aiortc.Lemmas.C05.V2Ctl
 import Aiortc.Lemmas.SctpNoCrashChunk
 /-! # V2 (C05c): `_receive_chunk` and `_handle_data` under the weaker invariant
 
-`dataLen c` = payload bytes of a DATA chunk (0 for the other chunk classes): the slack of `WF U n e` a chunk consumes. -/
+`dataLen` / `dgramDataBytes`: DATA payload bytes of a chunk / datagram (only used to state the former capacity
+hypothesis `Cap` of Props/C05Sctp2, which is no longer needed). -/
 namespace Aiortc.Sctp.V2
 open Aiortc.Gen Aiortc.Sctp.Wire
 set_option linter.unusedSimpArgs false
-variable {U : List Nat} {n : Nat}
+variable {U : List Nat}
 
 /-- User data bytes a chunk takes from the receive window. -/
 def dataLen : Chunk → Nat
@@ -22,7 +23,7 @@ def dgramDataBytes (d : Bytes) : Nat :=
   | _ => 0
 
 /-- The parameter group is the one of the state as updated by INIT / INIT-ACK. -/
-theorem initAck_inRange {e : Ep} (h : WF U n e) (hr : e.rwnd ≤ 1048576) {cookie : Bytes} (hc : cookie.length ≤ 1000) :
+theorem initAck_inRange {e : Ep} (h : WF U e) (hr : e.rwnd ≤ 1048576) {cookie : Bytes} (hc : cookie.length ≤ 1000) :
     (Chunk.init .initAck 0 e.localTag e.rwnd.toNat e.outboundCount e.inboundMax e.tx.localTsn.toNat
       (localExtensions ++ [(SCTP_STATE_COOKIE, cookie)])).inRange = true := by
   have h1 := h.net.ltag
@@ -45,16 +46,15 @@ theorem initAck_inRange {e : Ep} (h : WF U n e) (hr : e.rwnd ≤ 1048576) {cooki
   simp only [Chunk.inRange, hp, Bool.and_true, Bool.and_eq_true, decide_eq_true_eq]
   omega
 
-theorem WF.init {e : Ep} (h : WF U n e) {tag : Nat} (ht : tag < 4294967296) (itsn rwnd : Nat) :
-    WF U n { e with rx := some { last := tsn_minus_one itsn, mis := (e.rx.map (·.mis)).getD [],
-                                 dups := (e.rx.map (·.dups)).getD [] }
-                    reconfigResponseSeq := tsn_minus_one itsn
-                    remoteTag := tag
-                    hasSsthresh := true
-                    tx := { e.tx with ssthresh := rwnd } } := by
+theorem WF.init {e : Ep} (h : WF U e) {tag : Nat} (ht : tag < 4294967296) (itsn rwnd : Nat) :
+    WF U { e with rx := some { last := tsn_minus_one itsn, mis := (e.rx.map (·.mis)).getD [], dups := (e.rx.map (·.dups)).getD [] }
+                  reconfigResponseSeq := tsn_minus_one itsn
+                  remoteTag := tag
+                  hasSsthresh := true
+                  tx := { e.tx with ssthresh := rwnd } } := by
   refine ⟨⟨h.net.lp, h.net.rp, ht, h.net.ltag, h.net.inMax, h.net.outCnt⟩, h.ch,
     h.tx.congr rfl rfl rfl rfl rfl rfl rfl rfl, ⟨?_⟩, h.rcReq, tsn_minus_one_range _,
-    fun _ => rfl, h.room, h.ids, h.cap, h.tm1, h.tm2, h.tasks, h.rcr⟩
+    fun _ => rfl, h.ids, h.cap, h.tm1, h.tm2, h.tasks, h.rcr⟩
   intro r hr
   cases hr
   refine ⟨tsn_minus_one_range _, ?_, ?_⟩
@@ -65,18 +65,18 @@ theorem WF.init {e : Ep} (h : WF U n e) {tag : Nat} (ht : tag < 4294967296) (its
     | none => simp
     | some r0 => simpa using (h.rx.rng r0 hrx).2.2
 
-theorem WF.counts {e : Ep} (h : WF U n e) (outs ins : Nat) :
-    WF U n { e with inboundCount := min outs e.inboundMax, outboundCount := min e.outboundCount ins } :=
+theorem WF.counts {e : Ep} (h : WF U e) (outs ins : Nat) :
+    WF U { e with inboundCount := min outs e.inboundMax, outboundCount := min e.outboundCount ins } :=
   ⟨⟨h.net.lp, h.net.rp, h.net.rtag, h.net.ltag, h.net.inMax, by have := h.net.outCnt; simp only; omega⟩,
-   h.ch, h.tx, h.rx, h.rcReq, h.rcResp, h.sack, h.room, h.ids, h.cap, h.tm1, h.tm2, h.tasks, h.rcr⟩
+   h.ch, h.tx, h.rx, h.rcReq, h.rcResp, h.sack, h.ids, h.cap, h.tm1, h.tm2, h.tasks, h.rcr⟩
 
 /-- `_receive_chunk`. -/
 theorem wp_receiveChunk {A} {cookie : Bytes} {c : Chunk} {Q : Unit → St → Prop} {e : Ep} {l : List Out}
-    (h' : WF U (n + dataLen c) e)
+    (h' : WF U e)
     (ha : Acc 0 e.rwnd e.inStreams) (hso : SidOk e.inStreams) (hc : c.Wired) (hck : cookie.length ≤ 1000)
-    (hq : ∀ e' l', WF U n e' → Acc 0 e'.rwnd e'.inStreams → SidOk e'.inStreams → Q () (e', l')) :
+    (hq : ∀ e' l', WF U e' → Acc 0 e'.rwnd e'.inStreams → SidOk e'.inStreams → Q () (e', l')) :
     wp A (receiveChunk cookie c) Q (e, l) := by
-  have h : WF U n e := h'.mono (Nat.le_add_right _ _)
+  have h : WF U e := h'
   have hdone : ∀ l', Q () (e, l') := fun l' => hq e l' h ha hso
   cases c with
   | data flags tsn sid sseq proto ud =>
@@ -104,7 +104,7 @@ theorem wp_receiveChunk {A} {cookie : Bytes} {c : Chunk} {Q : Unit → St → Pr
     simp only [receiveChunk, wp_bind, wp_getE]
     refine wp_t2Cancel ?_; intro ch l1
     rw [wp_setState_other (by decide) (by decide)]
-    have hw1 : WF U n { e with t2 := false, t2Chunk := ch, assoc := .shutdownReceived } := by
+    have hw1 : WF U { e with t2 := false, t2Chunk := ch, assoc := .shutdownReceived } := by
       wf_same2 (h.t2Off ch)
     refine wp_sendChunk hw1 (by decide) ?_
     intro d
@@ -185,7 +185,7 @@ theorem wp_receiveChunk {A} {cookie : Bytes} {c : Chunk} {Q : Unit → St → Pr
       split
       · rename_i hest
         rw [wp_bind]
-        refine wp_forIn A ps _ _ (fun suf s' => WF U n s'.1 ∧ Acc 0 s'.1.rwnd s'.1.inStreams ∧
+        refine wp_forIn A ps _ _ (fun suf s' => WF U s'.1 ∧ Acc 0 s'.1.rwnd s'.1.inStreams ∧
           SidOk s'.1.inStreams ∧ s'.1.assoc = .established ∧ ∀ p ∈ suf, IsBytes p.2) _
           ⟨h, ha, hso, hest, hpb⟩ ?_ ?_
         · intro ⟨t, v⟩ rest ⟨e1, l1⟩ ⟨hw, hacc, hsok, hest1, hbytes⟩
@@ -223,14 +223,13 @@ theorem wp_receiveChunk {A} {cookie : Bytes} {c : Chunk} {Q : Unit → St → Pr
         refine wp_getExtensions ?_
         intro pr ext l1
         simp only [wp_modE, wp_getE]
-        have hw2 := (show WF U n _ from by wf_same2 hw1 :
-          WF U n { e with rx := some { last := tsn_minus_one itsn, mis := (e.rx.map (·.mis)).getD [],
-                                       dups := (e.rx.map (·.dups)).getD [] }
-                          reconfigResponseSeq := tsn_minus_one itsn
-                          remoteTag := tag
-                          hasSsthresh := true
-                          tx := { e.tx with ssthresh := rwnd }
-                          remotePR := pr, remoteExt := ext }).counts outs ins
+        have hw2 := (show WF U _ from by wf_same2 hw1 :
+          WF U { e with rx := some { last := tsn_minus_one itsn, mis := (e.rx.map (·.mis)).getD [], dups := (e.rx.map (·.dups)).getD [] }
+                        reconfigResponseSeq := tsn_minus_one itsn
+                        remoteTag := tag
+                        hasSsthresh := true
+                        tx := { e.tx with ssthresh := rwnd }
+                        remotePR := pr, remoteExt := ext }).counts outs ins
         refine wp_sendChunk (by wf_same2 hw2) (initAck_inRange hw2 hrw hck) ?_
         intro d
         exact hq _ _ (by wf_same2 hw2) ha hso
@@ -245,15 +244,14 @@ theorem wp_receiveChunk {A} {cookie : Bytes} {c : Chunk} {Q : Unit → St → Pr
         refine wp_getExtensions ?_
         intro pr ext l2
         simp only [wp_modE]
-        have hw2 := (show WF U n _ from by wf_same2 hw1 :
-          WF U n { e with t1 := false, t1Chunk := ch
-                          rx := some { last := tsn_minus_one itsn, mis := (e.rx.map (·.mis)).getD [],
-                                       dups := (e.rx.map (·.dups)).getD [] }
-                          reconfigResponseSeq := tsn_minus_one itsn
-                          remoteTag := tag
-                          hasSsthresh := true
-                          tx := { e.tx with ssthresh := rwnd }
-                          remotePR := pr, remoteExt := ext }).counts outs ins
+        have hw2 := (show WF U _ from by wf_same2 hw1 :
+          WF U { e with t1 := false, t1Chunk := ch
+                        rx := some { last := tsn_minus_one itsn, mis := (e.rx.map (·.mis)).getD [], dups := (e.rx.map (·.dups)).getD [] }
+                        reconfigResponseSeq := tsn_minus_one itsn
+                        remoteTag := tag
+                        hasSsthresh := true
+                        tx := { e.tx with ssthresh := rwnd }
+                        remotePR := pr, remoteExt := ext }).counts outs ins
         have hecho : (Chunk.plain .cookieEcho 0
             (((ps.find? fun p => p.1 == SCTP_STATE_COOKIE).map (·.2)).getD [])).inRange = true := by
           have hb : (((ps.find? fun p => p.1 == SCTP_STATE_COOKIE).map (·.2)).getD []).length + 4 < 65536 := by
@@ -271,11 +269,11 @@ theorem wp_receiveChunk {A} {cookie : Bytes} {c : Chunk} {Q : Unit → St → Pr
 
 /-- `_handle_data(data)` for a datagram of bytes. -/
 theorem wp_handleData {A} {data cookie : Bytes} {Q : Unit → St → Prop} {e : Ep} {l : List Out}
-    (h' : WF U (n + dgramDataBytes data) e)
+    (h' : WF U e)
     (ha : Acc 0 e.rwnd e.inStreams) (hso : SidOk e.inStreams) (hd : IsBytes data) (hck : cookie.length ≤ 1000)
-    (hq : ∀ e' l', WF U n e' → Acc 0 e'.rwnd e'.inStreams → SidOk e'.inStreams → Q () (e', l')) :
+    (hq : ∀ e' l', WF U e' → Acc 0 e'.rwnd e'.inStreams → SidOk e'.inStreams → Q () (e', l')) :
     wp A (handleData data cookie) Q (e, l) := by
-  have h : WF U n e := h'.mono (Nat.le_add_right _ _)
+  have h : WF U e := h'
   have hdone : ∀ l', Q () (e, l') := fun l' => hq e l' h ha hso
   have hben := parsePacket_benign data
   unfold handleData
@@ -285,8 +283,6 @@ theorem wp_handleData {A} {data cookie : Bytes} {Q : Unit → St → Prop} {e : 
   · rename_i hk; rw [hk] at hben; cases hben
   · rename_i sp dp vtag chunks hp
     have hwired := parsePacket_wired hd hp
-    have hbytes : dgramDataBytes data = chunksData chunks := by simp [dgramDataBytes, hp]
-    rw [hbytes] at h'
     simp only [wp_bind, wp_getE]
     split
     · simpa using hdone l
@@ -295,21 +291,18 @@ theorem wp_handleData {A} {data cookie : Bytes} {Q : Unit → St → Prop} {e : 
       refine ⟨fun _ => ?_, fun _ => ?_⟩
       · simpa using hdone l
       · simp only [wp_bind, wp_pure]
-        refine wp_forIn A chunks _ _ (fun suf s' => WF U (n + chunksData suf) s'.1 ∧
+        refine wp_forIn A chunks _ _ (fun suf s' => WF U s'.1 ∧
           Acc 0 s'.1.rwnd s'.1.inStreams ∧
           SidOk s'.1.inStreams ∧ ∀ c ∈ suf, c.Wired) _ ⟨h', ha, hso, hwired⟩ ?_ ?_
         · intro c rest ⟨e1, l1⟩ ⟨hw, hacc, hsok, hwi⟩
           simp only [wp_bind]
-          have hw0 : WF U (n + chunksData rest + dataLen c) e1 := by
-            have : n + chunksData (c :: rest) = n + chunksData rest + dataLen c := by
-              simp [chunksData]; omega
-            rw [← this]; exact hw
+          have hw0 : WF U e1 := hw
           refine wp_receiveChunk hw0 hacc hsok (hwi c (by simp)) hck ?_
           intro e' l' hw' ha' hs'
           simp only [wp_pure, true_and]
           exact ⟨hw', ha', hs', fun x hx => hwi x (by simp [hx])⟩
         · intro ⟨e1, l1⟩ ⟨hw0, hacc, hsok, _⟩
-          have hw : WF U n e1 := hw0
+          have hw : WF U e1 := hw0
           simp only [wp_getE]
           split
           · rename_i hsn
